@@ -16,6 +16,28 @@ _HIST_ASSUME = [
 ]
 
 PROPS = {
+    "C10": {
+        "level": "exploration",
+        "jobs": [
+            {"run": "^TestC10", "checks": {"quick": 40, "thorough": 400}, "shards": {"quick": 2, "thorough": 16}, "shrink_s": 45},
+        ],
+        "assumptions": [
+            "authorized servers and migration orders are installed through verif-tagged accessors (no peer forwarding); their signatures are genuine GCA signatures",
+            "the freshness oracle is tolerance-aware: a reply must be accepted if it is within 24 h - 5 s and rejected beyond 24 h + 5 s",
+            "locations are at most 255 bytes on the sync wire",
+        ],
+    },
+    "C17": {
+        "level": "exploration",
+        "jobs": [
+            {"run": "^TestC17ServerList", "checks": {"quick": 150, "thorough": 3000}, "shards": {"quick": 1, "thorough": 8}},
+            {"run": "^TestC17ClientAdoption", "checks": {"quick": 8, "thorough": 120}, "shards": {"quick": 4, "thorough": 16}, "steps": 14, "shrink_s": 45},
+        ],
+        "assumptions": [
+            "migration orders carry at least one new server (DESIGN.md section 6)",
+            "replacing an already banned entry by another GCA-signed banned entry is not flagged on the client",
+        ],
+    },
     "C11": {
         "level": "exploration",
         "jobs": [
@@ -153,6 +175,16 @@ PROPS = {
 
 # Texts for MANIFEST.json.
 META = {
+    "C10": {
+        "technique": "property-based differential testing of the sync reply between the real server, the real client parser and a reference decoder/acceptance rule; mutation-based negative testing through a fake endpoint",
+        "text": "Generated server states (edge slots, banned slots, 0-4 signed servers with 0..255-byte locations, migration orders) are queried by a real client with the same device key; its parse must equal the server snapshot and the reference decoder. Captured genuine replies are then mutated (bit flips per layout region - exhaustive for sampled replies in the thorough tier -, truncation, extension, bad framing, re-signing by other keys, timestamp shifts re-signed with the server key, replies for another device, replaced entry/migration signatures) and served by a fake endpoint; the client must reject exactly those the reference acceptance rule rejects, and a full round against a rejected reply must leave client state and files unchanged. Exploration only.",
+        "note": "Trusts ref.AcceptSyncReply / ref.DecodeSyncReply (written from the property and the documented layout).",
+    },
+    "C17": {
+        "technique": "stateful property-based testing against reference merge/adoption models on both the server and the client side",
+        "text": "Server: generated POST /authorized-servers sequences (new, duplicates with changes, bans, un-ban attempts, forged and foreign signatures; peers down, the server itself, a second live server) are compared with a reference merge model through GET after every step; forwarding to a live peer is checked. Client: generated reply sequences (lists and migration orders, valid and forged in every position) with restarts are compared with a reference acceptance + adoption model in memory and on disk after every round. Exploration only.",
+        "note": "Server-side persistence of the list is documented as not implemented and is outside the property.",
+    },
     "C11": {
         "technique": "stateful property-based testing with fault injection: fake servers with real keys play drawn per-connection outcomes, including validly signed arbitrary replies",
         "text": "A real client with 1-5 configured servers (dead, banned, or fake servers owning key pairs) runs generated sync rounds, ticks with new readings and restarts. Outcomes per connection cover refusals, resets, short reads, every length class up to 65535 with a valid signature over arbitrary content, wrong signers, stale timestamps, foreign device keys, entries lacking the GCA signature, GCA-signed bans and un-ban attempts. Checked: no panic, mutex free after every round, next tick emits, no server dialled twice per round or while known banned, bans monotone in memory and on disk and across restart, and re-sync within four ticks after a failed round driven by the client's own loop. Exploration only.",
